@@ -285,7 +285,7 @@ func c15Rich() *Scenario {
 	pre(regAct(model.WrkReg, "W1", []string{"chain-a", "Chain a", "0xgenesis-a", "geth"}, 9))
 	pre(regAct(model.WrkReg, "W2", []string{"chain-b", "", "", "geth"}, 9))
 	pre(regAct(model.BcnReg, "W1", []string{"beacon-a", "Beacon a"}, 9))
-	pre(regAct(model.BcnReg, "W2", []string{"beacon-b", ""}, 9))
+	pre(regAct(model.BcnReg, "W2", []string{"beacon-b", "b"}, 9)) // a BEACON needs a name; it stays without timestamps
 	w1, b1 := wrecAct("wrec(W1,#1,next)", "W1", 1, next), brecAct("brec(W1,#1)", "W1", 1)
 	add(w1, b1) // also letters of the search
 	s.Prefix = append(s.Prefix, w1.Name, b1.Name, w1.Name, b1.Name, w1.Name, b1.Name)
